@@ -66,9 +66,21 @@ fn gen_matrix(r: &mut Rng, m: usize, n: usize) -> (Array2<f64>, Array1<f64>) {
     let mut b = Array1::zeros(m);
     for i in 0..m {
         let pool: Vec<f64> = (0..2).map(|_| gen_num(r, &[1.0, 0.5])).map(|v: f64| v.abs()).collect();
-        let mode = r.below(8);
+        let mode = r.below(9);
+        // mode 8: a zero prefix of random length (1 .. n-1, or exactly the 5 / 20 columns the default options print)
+        // followed by a non-zero tail: "is this row all zero" must look at every column, also the hidden ones
+        let prefix = if n >= 2 { [1 + r.below(n - 1), 5.min(n - 1), 20.min(n - 1)][r.below(3)] } else { 0 };
         for j in 0..n {
             a[[i, j]] = match mode {
+                8 => {
+                    if j < prefix {
+                        if r.chance(1, 4) { -0.0 } else { 0.0 }
+                    } else if j == prefix {
+                        sign(pool[0], r)
+                    } else {
+                        gen_num(r, &pool)
+                    }
+                }
                 0 => {
                     if r.chance(1, 2) {
                         0.0
